@@ -155,6 +155,26 @@ pub fn record_c17(a: &Args) -> usize {
             out.emit(json!({"e": "twin", "op": name, "typ": format!("{:?}", t), "npages": pages.len(),
                             "direct": {"out": od, "obs": bus_obs(&dbus.borrow(), n)}, "wire": {"out": ow, "obs": bus_obs(&vbus.borrow(), n)}}));
         };
+        // raw messages (including frames that are not protocol messages, and maximum-length data) sent through the serial
+        // bus on one twin and directly on the other: replies and signs must agree
+        let both_raw = |out: &mut TraceOut, msgs: Vec<Message<'static>>| {
+            let mut dr = vec![];
+            let mut wr = vec![];
+            for m in &msgs {
+                let d = catch(|| dbus.borrow_mut().process_message(m.clone()).map(|o| o.map(|x| j::msg_from(&j::msg(&x)))).map_err(|e| e.to_string()));
+                let w = catch(|| sbus.borrow_mut().process_message(m.clone()).map(|o| o.map(|x| j::msg_from(&j::msg(&x)))).map_err(|e| e.to_string()));
+                let f = |r: Result<Result<Option<Message<'static>>, String>, String>| match r {
+                    Ok(Ok(x)) => j::reply(&x),
+                    Ok(Err(_)) => json!({"k": "Err", "a": 0, "s": "", "t": 0, "d": []}),
+                    Err(_) => json!({"k": "Panic", "a": 0, "s": "", "t": 0, "d": []}),
+                };
+                dr.push(f(d));
+                wr.push(f(w));
+            }
+            flush(out);
+            out.emit(json!({"e": "twinraw", "msgs": msgs.iter().map(j::msg).collect::<Vec<_>>(),
+                            "direct": {"replies": dr, "obs": bus_obs(&dbus.borrow(), n)}, "wire": {"replies": wr, "obs": bus_obs(&vbus.borrow(), n)}}));
+        };
         let (w, h) = typ.dimensions();
         let pages: Vec<Page<'static>> = (0..rng.gen_range(0..=2)).map(|i| random_page(&mut rng, i as u8, w, h)).collect();
         match sc % 4 {
@@ -204,6 +224,32 @@ pub fn record_c17(a: &Args) -> usize {
                 }
                 both(&mut out, "send_pages", typ, &pages);
                 both(&mut out, "show", typ, &[]);
+                // frames that are not protocol messages, and long data chunks, while the sign is in the middle of a transfer
+                let ad = Address(me);
+                let unk = |t: u8, d: &[u8]| Message::Unknown(Frame::new(ad, MsgType(t), Data::try_new(d.to_vec()).unwrap()));
+                both_raw(&mut out, vec![
+                    Message::RequestOperation(ad, flipdot_core::Operation::StartReset),
+                    Message::RequestOperation(ad, flipdot_core::Operation::FinishReset),
+                    Message::RequestOperation(ad, flipdot_core::Operation::ReceiveConfig),
+                    unk(1, &[0, 1]),
+                    unk(1, &[7]),
+                    unk(2, &[0x00, 0x00]),
+                    unk(6, &[0x00, 0x01]),
+                    unk(9, &[]),
+                    Message::SendData(flipdot_core::Offset(0), Data::try_new(typ.to_bytes().to_vec()).unwrap()),
+                    unk(1, &[0, 1, 2]),
+                    Message::DataChunksSent(flipdot_core::ChunkCount(1)),
+                    Message::QueryState(ad),
+                    Message::RequestOperation(ad, flipdot_core::Operation::ReceivePixels),
+                    Message::SendData(flipdot_core::Offset(0), Data::try_new(vec![0xAA; 255]).unwrap()),
+                    Message::SendData(flipdot_core::Offset(255), Data::try_new(vec![0x55; 250]).unwrap()),
+                    unk(4, &[0x13, 0x00]),
+                    Message::SendData(flipdot_core::Offset(16), Data::try_new(vec![]).unwrap()),
+                    Message::SendData(flipdot_core::Offset(17), Data::try_new(vec![9]).unwrap()),
+                    Message::DataChunksSent(flipdot_core::ChunkCount(4)),
+                    Message::QueryState(ad),
+                    Message::Hello(Address(me.wrapping_add(99))),
+                ]);
             }
         }
         // break the Rc cycle (port -> pump -> wire -> odk ...)
